@@ -2,6 +2,7 @@ package main
 
 import (
 	"fmt"
+	"os"
 	"go/token"
 	"go/types"
 	"math/big"
@@ -131,6 +132,9 @@ func (x *Exec) havocLoop(st *State, l *Loop) {
 		nv := x.freshVar("loop_"+a.Comment, sortOfStatic(t))
 		st.cells[a] = nv
 		x.enterFacts(st, nv, t)
+	}
+	if os.Getenv("GOWP_DEBUG") != "" {
+		fmt.Fprintf(os.Stderr, "loop %d of %s: mods %v cells %d\n", l.Ordinal, relName(x.fn), sortedKeys(l.Mods), len(l.Cells))
 	}
 	x.havoc(st, l.Mods)
 	x.rangeIndexInvariant(st, l)
